@@ -460,6 +460,23 @@ func (fc *FnCtx) evalCall(x *ECall, env *Env) Val {
 			fc.fail("sliceoff of kind %d", v.K)
 		}
 		return intVal(v.C[1])
+	case "callarg":
+		// callarg("F", k): the k-th argument of the latest call to F that dominates this point
+		lit, ok := x.Args[0].(*ELit)
+		if !ok || lit.Kind != "string" || len(x.Args) != 2 {
+			fc.fail("callarg expects (function name string, index)")
+		}
+		il, ok := x.Args[1].(*ELit)
+		if !ok || il.Kind != "int" {
+			fc.fail("callarg(name, k): k must be a literal")
+		}
+		var k int
+		fmt.Sscan(il.Val, &k)
+		v, found := fc.callArg(lit.Val, k)
+		if !found {
+			fc.fail("unknown identifier callarg(%s)", lit.Val)
+		}
+		return v
 	case "det":
 		// det("F", args...): the first result the deterministic function F returns for these arguments in the
 		// heap of the evaluation state (old(det(...)) = in the pre-state)
